@@ -265,6 +265,322 @@ fn kinds(run: &mut Run) {
   run.set("error_kind_cases", json!(n));
 }
 
+
+// ---------------------------------------------------------------------------------------
+// struct family: maps with several members (incl. `any`-typed, nested map / array valued and
+// table members) x documents with nested values: the depth at which location push/restore
+// and speculative error truncation interact (DESIGN.md section 9).
+
+fn struct_members() -> Vec<Entry> {
+  let kv = |occ: Occ, k: Key, t: Ty| Entry { occ, kind: EK::Val(Some(k), t) };
+  let bare = |s: &str| Key::Bare(s.into());
+  let inner_map = |k: &str, t: T2| T2::Map(Grp(vec![vec![Entry { occ: Occ::One, kind: EK::Val(Some(Key::Bare(k.into())), ty1(t)) }]]));
+  let arr = |t: T2| T2::Arr(Grp(vec![vec![ent(Occ::Star, ty1(t))]]));
+  vec![
+    kv(Occ::One, bare("a"), ty1(name("int"))),
+    kv(Occ::One, bare("a"), ty1(name("any"))),
+    kv(Occ::Opt, bare("a"), ty1(name("tstr"))),
+    kv(Occ::One, bare("b"), ty1(name("tstr"))),
+    kv(Occ::One, bare("b"), ty1(name("any"))),
+    kv(Occ::One, bare("b"), ty1(inner_map("a", name("int")))),
+    kv(Occ::Opt, bare("b"), ty1(arr(name("int")))),
+    kv(Occ::One, bare("c"), ty1(name("int"))),
+    kv(Occ::One, bare("c"), Ty(vec![t1(name("int")), t1(inner_map("a", name("tstr")))])),
+    kv(Occ::Opt, bare("c"), ty1(name("any"))),
+    kv(Occ::Star, Key::Arrow(t1(name("tstr")), false), ty1(name("int"))),
+    kv(Occ::Star, Key::Arrow(t1(name("tstr")), false), ty1(name("any"))),
+    Entry { occ: Occ::One, kind: EK::Ref("gk".into(), vec![]) },
+  ]
+}
+
+fn struct_docs() -> Vec<RV> {
+  let vals: Vec<RV> = vec![
+    i(1),
+    t("x"),
+    RV::Map(vec![(t("a"), i(1))]),
+    RV::Map(vec![(t("a"), t("x"))]),
+    RV::Array(vec![i(1)]),
+    RV::Array(vec![i(1), t("x")]),
+  ];
+  let mut out = vec![];
+  let n = vals.len() + 1;
+  for x in 0..n {
+    for y in 0..n {
+      for z in 0..n {
+        let mut es = vec![];
+        for (k, idx) in [("a", x), ("b", y), ("c", z)] {
+          if idx > 0 {
+            es.push((t(k), vals[idx - 1].clone()));
+          }
+        }
+        out.push(RV::Map(es));
+      }
+    }
+  }
+  out
+}
+
+fn struct_types(tier: Tier) -> Vec<Ty> {
+  let ms = struct_members();
+  let mut out = vec![];
+  for a in &ms {
+    out.push(ty1(T2::Map(Grp(vec![vec![a.clone()]]))));
+    for b in &ms {
+      out.push(ty1(T2::Map(Grp(vec![vec![a.clone(), b.clone()]]))));
+      out.push(ty1(T2::Map(Grp(vec![vec![a.clone()], vec![b.clone()]]))));
+      // the same struct as an array element (locations get an index segment)
+      out.push(ty1(T2::Arr(Grp(vec![vec![ent(Occ::Star, ty1(T2::Map(Grp(vec![vec![a.clone(), b.clone()]]))))]]))));
+      for c in &ms {
+        if tier == Tier::Thorough || (lit_a(c) != lit_a(b) && lit_a(a) != lit_a(b)) {
+          out.push(ty1(T2::Map(Grp(vec![vec![a.clone(), b.clone(), c.clone()]]))));
+        }
+      }
+    }
+  }
+  out
+}
+fn lit_a(e: &Entry) -> String {
+  match &e.kind {
+    EK::Val(Some(Key::Bare(s)), _) => s.clone(),
+    EK::Ref(..) => "a".into(),
+    _ => "*".into(),
+  }
+}
+
+// ---------------------------------------------------------------------------------------
+// call histories: every call of a small alphabet that touches each dependency which could
+// cache across calls (regex, fancy-regex, pest_vm/ABNF, chrono, uriparse, csv, the parser)
+// is executed (a) alone in a fresh process = the reference observation, (b) after every
+// other call / pair of calls, each history in its own fresh process, (c) concurrently with
+// every other call on two free-running threads (sampled schedules, reported separately).
+
+pub struct Call {
+  pub kind: &'static str,
+  pub schema: &'static str,
+  pub doc: &'static str,
+}
+pub fn calls() -> Vec<Call> {
+  let c = |kind, schema, doc| Call { kind, schema, doc };
+  vec![
+    c("json", r#"r = tstr .regexp "[0-9]{4}""#, r#""id-20260922""#),
+    c("json", r#"r = tstr .iregexp "[0-9]{4}""#, r#""id-20260922""#),
+    c("json", r#"r = tstr .pcre "[0-9]{4}""#, r#""id-20260922""#),
+    c("json", r#"r = tstr .regexp "[0-9]{4}""#, r#""2026""#),
+    c("json", r#"r = tstr .iregexp "[0-9]{4}""#, r#""2026""#),
+    c("json", r#"r = tstr .regexp "[0-9]{4}""#, r#""abc""#),
+    c("cbor", r#"r = tstr .regexp "[0-9]{4}""#, r#""id-20260922""#),
+    c("cbor", r#"r = tstr .iregexp "[0-9]{4}""#, r#""id-20260922""#),
+    c("cbor", r#"r = tstr .pcre "[0-9]{4}""#, r#""2026""#),
+    c("json", r#"r = tstr .regexp "a|b""#, r#""cab""#),
+    c("json", r#"r = tstr .pcre "a|b""#, r#""cab""#),
+    c("json", "r = tstr .abnf \"d\\nd = 1*DIGIT\\nDIGIT = %x30-39\\n\"", r#""123""#),
+    c("json", "r = tstr .abnf \"d\\nd = 1*DIGIT\\nDIGIT = %x30-39\\n\"", r#""12a""#),
+    c("json", "r = tdate", r#""2020-01-01T00:00:00Z""#),
+    c("json", "r = tdate", r#""2020-13-01T00:00:00Z""#),
+    c("json", "r = uri", r#""http://x.y/z""#),
+    c("json", "r = m<int>\nm<t> = [* t]", "[1,2]"),
+    c("json", "r = m<tstr>\nm<t> = [* t]", "[1,2]"),
+    c("json", "r = {a: int, b: {c: tstr}}", r#"{"a":"x","b":{"c":1}}"#),
+    c("cbor", "r = {a: int, b: {c: tstr}}", r#"{"a":"x","b":{"c":1}}"#),
+    c("json", r#"r = "a" .cat "b""#, r#""ab""#),
+    c("json", "r = 1 .plus 2", "3"),
+    c("csv", "r = [* [tstr, uint]]", "a,1\nb,2\n"),
+    c("csv", "r = [* [tstr, uint]]", "a,x\n"),
+    c("fmt", "r = {a: int, b: [* tstr]}\ng = (x: 1.0, ~r)", ""),
+    c("cbor", "r = #6.1(int)", "TAG1"),
+  ]
+}
+
+pub fn run_call(c: &Call) -> String {
+  let rep = |r: Rep| r.short();
+  match c.kind {
+    "json" => rep(jrep_str(c.schema, c.doc)),
+    "cbor" => {
+      let bytes: Vec<u8> = if c.doc == "TAG1" {
+        vec![0xc1, 0x01]
+      } else {
+        let v: serde_json::Value = serde_json::from_str(c.doc).unwrap();
+        let mut b = vec![];
+        ciborium::ser::into_writer(&v, &mut b).unwrap();
+        b
+      };
+      match catch(|| cddl::validate_cbor_from_slice(c.schema, &bytes, None)) {
+        Ok(Ok(())) => "Ok".into(),
+        Ok(Err(cddl::validator::cbor::Error::Validation(l))) => {
+          rep(Rep::Val(l.into_iter().map(|e| (e.cbor_location, e.reason)).collect()))
+        }
+        Ok(Err(e)) => format!("Err(other {e})"),
+        Err(p) => format!("PANIC {p}"),
+      }
+    }
+    "csv" => match catch(|| cddl::validate_csv_from_str(c.schema, c.doc, Some(false), None)) {
+      Ok(Ok(())) => "Ok".into(),
+      Ok(Err(e)) => trunc(&format!("Err({e})")),
+      Err(p) => format!("PANIC {p}"),
+    },
+    _ => match catch(|| cddl::cddl_from_str(c.schema, false).map(|a| a.to_string())) {
+      Ok(Ok(s)) => format!("formatted {:?}", s),
+      Ok(Err(e)) => format!("Err({e})"),
+      Err(p) => format!("PANIC {p}"),
+    },
+  }
+}
+
+/// `mc c14-hist i,j,k` : run the calls in order in this (fresh) process, print one report per line
+pub fn hist_main(arg: &str) {
+  quiet_panics();
+  let cs = calls();
+  let out: Vec<String> = quiet_stderr(|| arg.split(',').map(|x| run_call(&cs[x.parse::<usize>().unwrap()])).collect());
+  println!("{}", serde_json::to_string(&out).unwrap());
+}
+/// `mc c14-conc i,j` : the two calls on two free-running threads, 8 rounds each
+pub fn conc_main(arg: &str) {
+  quiet_panics();
+  let cs = calls();
+  let ix: Vec<usize> = arg.split(',').map(|x| x.parse().unwrap()).collect();
+  let out: Vec<Vec<String>> = quiet_stderr(|| {
+    let bar = std::sync::Barrier::new(2);
+    std::thread::scope(|s| {
+      let hs: Vec<_> = ix
+        .iter()
+        .map(|&i| {
+          let c = &cs[i];
+          let bar = &bar;
+          s.spawn(move || {
+            bar.wait();
+            (0..8).map(|_| run_call(c)).collect::<Vec<String>>()
+          })
+        })
+        .collect();
+      hs.into_iter().map(|h| h.join().unwrap()).collect()
+    })
+  });
+  println!("{}", serde_json::to_string(&out).unwrap());
+}
+
+fn spawn(sub: &str, arg: &str) -> Option<serde_json::Value> {
+  let exe = std::env::current_exe().ok()?;
+  let o = std::process::Command::new(exe).arg(sub).arg(arg).stderr(std::process::Stdio::null()).output().ok()?;
+  serde_json::from_slice(&o.stdout).ok()
+}
+
+fn histories(run: &mut Run, tier: Tier) {
+  let cs = calls();
+  let n = cs.len();
+  // reference observations: each call alone in a fresh process (twice: must be identical)
+  let mut base: Vec<String> = vec![];
+  for i in 0..n {
+    let a = spawn("c14-hist", &i.to_string()).and_then(|v| v[0].as_str().map(|s| s.to_string()));
+    let b = spawn("c14-hist", &i.to_string()).and_then(|v| v[0].as_str().map(|s| s.to_string()));
+    match (a, b) {
+      (Some(a), Some(b)) if a == b => base.push(a),
+      (a, b) => {
+        run.viol(Viol {
+          kind: "history".into(),
+          case: json!({"calls": [i], "schema": cs[i].schema, "doc": cs[i].doc}),
+          observed: format!("{a:?} vs {b:?} in two fresh processes"),
+          expected: "identical report".into(),
+          finding: None,
+        });
+        base.push(String::new());
+      }
+    }
+  }
+  let mut seqs: Vec<Vec<usize>> = vec![];
+  for i in 0..n {
+    for j in 0..n {
+      seqs.push(vec![i, j]);
+      if tier == Tier::Thorough {
+        for k in 0..n {
+          seqs.push(vec![i, j, k]);
+        }
+      }
+    }
+  }
+  #[derive(Default)]
+  struct A {
+    v: Vec<Viol>,
+    calls: u64,
+    engine_err: u64,
+  }
+  let accs = par_sweep(seqs.len(), 4, A::default, |x, a: &mut A| {
+    let seq = &seqs[x];
+    let arg = seq.iter().map(|i| i.to_string()).collect::<Vec<_>>().join(",");
+    let Some(out) = spawn("c14-hist", &arg) else {
+      a.engine_err += 1;
+      return;
+    };
+    for (pos, &ci) in seq.iter().enumerate() {
+      a.calls += 1;
+      let got = out[pos].as_str().unwrap_or("");
+      if got != base[ci] && a.v.len() < 5 {
+        a.v.push(Viol {
+          kind: "history".into(),
+          case: json!({"calls": seq, "position": pos, "history": seq[..pos].iter().map(|&h| json!({"kind": cs[h].kind, "schema": cs[h].schema, "doc": cs[h].doc})).collect::<Vec<_>>(),
+                       "kind": cs[ci].kind, "schema": cs[ci].schema, "doc": cs[ci].doc}),
+          observed: format!("after the history: {}", trunc(got)),
+          expected: format!("as in a fresh process: {}", trunc(&base[ci])),
+          finding: None,
+        });
+      }
+    }
+  });
+  let mut hist_calls = 0;
+  for a in accs {
+    hist_calls += a.calls;
+    if a.engine_err > 0 {
+      run.notes.push(format!("{} history subprocesses could not be run", a.engine_err));
+      run.exhaustive = false;
+    }
+    for v in a.v {
+      run.viol(v);
+    }
+  }
+  run.states += n as u64;
+  run.transitions += hist_calls;
+  run.traces += hist_calls;
+  run.set("history_alphabet_calls", json!(n));
+  run.set("histories_explored", json!(seqs.len()));
+  run.set("history_max_length", json!(tier.pick(2, 3)));
+  run.sample(json!({"history": [cs[0].schema, cs[1].schema], "doc": cs[1].doc, "fresh_process_report": base[1]}));
+  // concurrent pairs: sampled schedules (free-running OS threads), reported separately
+  let mut pairs = vec![];
+  for i in 0..n {
+    for j in i..n {
+      pairs.push((i, j));
+    }
+  }
+  let accs = par_sweep(pairs.len(), 2, A::default, |x, a: &mut A| {
+    let (i, j) = pairs[x];
+    let Some(out) = spawn("c14-conc", &format!("{i},{j}")) else {
+      a.engine_err += 1;
+      return;
+    };
+    for (t, &ci) in [i, j].iter().enumerate() {
+      for r in out[t].as_array().map(|x| x.as_slice()).unwrap_or(&[]) {
+        a.calls += 1;
+        if r.as_str().unwrap_or("") != base[ci] && a.v.is_empty() {
+          a.v.push(Viol {
+            kind: "concurrent".into(),
+            case: json!({"calls": [i, j], "kind": cs[ci].kind, "schema": cs[ci].schema, "doc": cs[ci].doc, "other_schema": cs[if t == 0 { j } else { i }].schema}),
+            observed: format!("concurrently with the other call: {}", trunc(r.as_str().unwrap_or(""))),
+            expected: format!("as in a fresh process: {}", trunc(&base[ci])),
+            finding: None,
+          });
+        }
+      }
+    }
+  });
+  let mut cc = 0;
+  for a in accs {
+    cc += a.calls;
+    for v in a.v {
+      run.viol(v);
+    }
+  }
+  run.set("concurrent_pairs_sampled_schedules", json!({"pairs": pairs.len(), "calls_compared": cc, "note": "two free-running OS threads, 8 rounds each: SAMPLING of schedules, not exhaustive; not counted in states/transitions"}));
+}
+
 pub fn run(tier: Tier) -> i32 {
   quiet_panics();
   let mut run = Run::new("C14", tier, "model_checking");
@@ -279,6 +595,14 @@ pub fn run(tier: Tier) -> i32 {
     sweep(&mut run, tys, &lib, &docs, &sdocs);
     run.add("schemas", tys.len() as u64);
   }
+  {
+    let sd = struct_docs();
+    let ssd: Vec<serde_json::Value> = sd.iter().map(crate::verdicts::rv_to_serde).collect();
+    let st = struct_types(tier);
+    sweep(&mut run, &st, &lib, &sd, &ssd);
+    run.set("struct_family", json!({"schemas": st.len(), "documents": sd.len()}));
+  }
+  histories(&mut run, tier);
   quiet_stderr(|| kinds(&mut run)); // the string entry points print parser diagnostics to stderr
   run.evaluations = run.transitions;
   run.rule = format!(
@@ -288,20 +612,40 @@ pub fn run(tier: Tier) -> i32 {
      the string entry point for one document per schema. Oracle: Validation lists are non-empty, every JSON location is \"\" or resolves \
      (serde_json pointer) in the document, all reports of a state are identical. Plus a fixed table of malformed schemas / malformed JSON / \
      truncated CBOR / non-conforming documents whose error kinds must be CDDLParsing / JSONParsing / CBORParsing / Validation. \
+     Struct family: every map of 1-3 members (and two-alternative maps, and arrays of two-member maps) over a 13-member alphabet (int/any/tstr, \
+     nested map and array values, choice values, tables, group reference) x the 343 objects over keys a,b,c with 6 nested/scalar values, judged the same way. \
+     Call histories: an alphabet of 26 calls touching every dependency that could cache across calls (.regexp/.iregexp/.pcre with the same pattern, ABNF, \
+     tdate, uri, generics, .cat/.plus, CSV, parse+format, tags) - each call alone in a fresh process is the reference; every ordered pair (thorough: triple) \
+     of calls is run as a history in its own fresh process and every call of it must report exactly as in the reference. \
      non-trivial = states of schemas that accept some and reject some document.",
     docs.len()
   );
   run.assumptions = vec![
-    "concurrent calls are not explored: the crate has no static/thread-local mutable state (grep in DESIGN.md C14), each validator owns its state, so interleavings cannot interact; only sequential histories are enumerated".into(),
+    "interleavings of concurrent calls are not enumerated (no synchronisation points exist for a controlled scheduler; loom/shuttle do not intercept the std primitives inside regex/pest): every pair of calls is additionally run on two free-running threads and compared with the fresh-process reference - that part is SAMPLING of schedules and is reported separately (coverage.concurrent_pairs_sampled_schedules)".into(),
   ];
   run.finish()
 }
 
 pub fn replay(case: &serde_json::Value, kind: &str) -> Option<Viol> {
   let s = case["schema"].as_str()?;
-  let d = case["json"].as_str()?;
+  let d = case["json"].as_str().unwrap_or("");
   let mk = |o: String| Viol { kind: kind.into(), case: case.clone(), observed: o, expected: String::new(), finding: None };
   match kind {
+    "history" | "concurrent" => {
+      // the recorded history in a fresh process vs the judged call alone in a fresh process
+      let seq: Vec<usize> = case["calls"].as_array()?.iter().filter_map(|x| x.as_u64().map(|x| x as usize)).collect();
+      let pos = case["position"].as_u64().unwrap_or(seq.len() as u64 - 1) as usize;
+      let arg = seq.iter().map(|i| i.to_string()).collect::<Vec<_>>().join(",");
+      let alone = spawn("c14-hist", &seq[pos].to_string())?;
+      let after = spawn(if kind == "history" { "c14-hist" } else { "c14-conc" }, &arg)?;
+      let a = alone[0].as_str()?.to_string();
+      let differs = if kind == "history" {
+        after[pos].as_str()? != a
+      } else {
+        after.as_array()?.iter().zip(&seq).any(|(rs, &ci)| ci == seq[pos] && rs.as_array().map(|rs| rs.iter().any(|r| r.as_str() != Some(&a))).unwrap_or(false))
+      };
+      return differs.then(|| mk(format!("alone {a} vs with the other calls {}", trunc(&after.to_string()))));
+    }
     "json-location" | "json-empty-error-list" => match jrep_str(s, d) {
       Rep::Val(l) => {
         let doc: serde_json::Value = serde_json::from_str(d).ok()?;
